@@ -1128,8 +1128,10 @@ func execPanic(rec *Record, c Case) {
 	case !reached && out.Panic != nil:
 		rec.Sig, rec.What = "unexpected-panic", trunc(out.Panic.Value, 200)
 	}
-	if reached {
+	if reached && out.Panic != nil {
 		rec.Canon = "recovered " + out.Panic.Value
+	} else if reached {
+		rec.Canon = "panic lost"
 	} else {
 		rec.Canon = "panic point not reached"
 	}
